@@ -20,6 +20,7 @@ Event log (a list of tuples; the position in the list is the global sequence num
   ("exe", n, tid)                                  the task cycle n popped last, i.e. executed (its slice may abort without a step)
   ("srecv", sock, time, hex)  ("ssend", sock, time, marker, offered, accepted)
   ("overlap", running, entering, time)             re-entrancy flag was already set
+  ("rf", tid, pc, k, time, "abort"|"exc"|"value")   call number k of the scripted ReturnFunction of op pc of tid
   ("xexc", tid, exc type, where, text)             exception out of task.execute that the program did not ask for
   ("killed", name, in_blocking_op, last line)      parsed from the scheduler's own "caused an exception" report
   ("quit", tid, time)  ("stop", time, why)  ("runexc", type, where, text)  ("final", {...})
@@ -46,6 +47,22 @@ class TaskError(Exception):
 
 class SubError(Exception):
   """Raised by a sub-task whose `ret` is {"raise": ...}."""
+
+
+class HBase(BaseException):
+  """A harness-private BaseException that is not an Exception (what sys.exit() / an application's own
+  BaseException subclass looks like to the scheduler) -- raised by `raise`/sub-task ret/timer rets with "base"."""
+
+
+class RfError(Exception):
+  """The failure a scripted ReturnFunction reports through task.re + EXCEPTION."""
+
+
+class TimerError(Exception):
+  """Raised by a timer callback whose scripted return is "raise"."""
+
+
+PROGRAM_EXC = (TaskError, SubError, HBase, RfError, TimerError)
 
 
 class VPinger(object):
@@ -342,7 +359,7 @@ class Run(object):
             return
           if "raise" in ret:
             self._end(tid, step, "raise")
-            raise SubError("sub:" + tid)
+            raise (HBase if ret.get("base") else SubError)("sub:" + tid)
           yv = ["ret", tid] if ret.get("v") == "token" else ret.get("v")
           self._end(tid, step, "ret")
           final = True
@@ -350,12 +367,12 @@ class Run(object):
           op = prog[pc]
           if op["op"] == "raise":
             self._end(tid, step, "raise")
-            raise TaskError(tid)
+            raise (HBase if op.get("base") else TaskError)(tid)
           if op["op"] == "exit":
             self._end(tid, step, "exit")
             return
           yv = self._request(tid, step, pc, op)
-      except (TaskError, SubError):
+      except PROGRAM_EXC:
         raise
       except BaseException:
         if self.fault is None:
@@ -389,7 +406,7 @@ class Run(object):
           return None
         if "raise" in ret:
           self._end(tid, 0, "raise")
-          raise SubError("sub:" + tid)
+          raise (HBase if ret.get("base") else SubError)("sub:" + tid)
         self._end(tid, 0, "ret")
         return ["ret", tid] if ret.get("v") == "token" else ret.get("v")
       finally:
@@ -515,6 +532,17 @@ class Run(object):
       else:
         eff = {"op": "y0", "was": "release"}
         yv = 0
+    elif k == "rfop":
+      script = []
+      for o in list(op.get("script") or [{"v": "token"}]):
+        script.append(o)
+        if o != "abort":
+          break                                   # the first non-abort entry completes the operation
+      eff["script"] = script
+      delay = op.get("delay") or 0
+      yv = self._scripted_op(tid, pc, script, delay)
+      if delay:
+        due = now + delay
     elif k == "quit":
       yv = R.Exit()
       self.emit(("quit", tid, now))
@@ -528,6 +556,47 @@ class Run(object):
       self.due[tid] = due
     self.emit(("req", tid, step, pc, now, eff))
     return yv
+
+  def _scripted_op(self, tid, pc, script, delay):
+    """A BlockingOperation of the harness that uses recoco's documented ReturnFunction protocol: execute() sets task.rf and
+    arranges the next slice (at once, or through the hub after `delay`); the return function follows `script`:
+    "abort" -> re-arrange a slice and return ABORT, "exc" -> task.re = RfError(...), return EXCEPTION, {"v": x} -> return x."""
+    R = self.R
+    rt = self
+
+    class Scripted(R.BlockingOperation):
+      def __init__(op_self):
+        op_self.k = 0
+
+      def _slice(op_self, task):
+        if delay:
+          rt.due[tid] = rt.clock.now + delay
+          op_self.sched._selectHub.registerTimer(task, delay)
+        else:
+          op_self.sched.fast_schedule(task)
+
+      def execute(op_self, task, scheduler):
+        op_self.sched = scheduler
+        task.rf = op_self._rf
+        op_self._slice(task)
+
+      def _rf(op_self, task):
+        k = op_self.k
+        op_self.k = k + 1
+        o = script[k] if k < len(script) else {"v": None}
+        last = k >= len(script) - 1
+        if o == "abort" and not last:
+          rt.emit(("rf", tid, pc, k, rt.clock.now, "abort"))
+          op_self._slice(task)
+          return R.ABORT
+        if o == "exc":
+          rt.emit(("rf", tid, pc, k, rt.clock.now, "exc"))
+          task.re = RfError("rf:%s/%d" % (tid, pc))
+          return R.EXCEPTION
+        rt.emit(("rf", tid, pc, k, rt.clock.now, "value"))
+        v = o.get("v") if isinstance(o, dict) else None
+        return ["rf", tid, pc] if v == "token" else v
+    return Scripted()
 
   def _action(self, tid, step, op):
     k = op["op"]
@@ -596,6 +665,7 @@ class Run(object):
                  selfStoppable=bool(spec.get("self_stop", True)), **kw)
     self.timers[i] = tm
     self.timer_tid[id(tm)] = "T%d" % i
+    tm.name = "T%d" % i            # only used when the scheduler reports that the task died
 
   def _start_timer(self, i):
     """Timer(started=False).start() at a later instant: a relative delay counts from now."""
@@ -630,6 +700,10 @@ class Run(object):
           self._cancel(i)
         cont = False
         ret = None
+      if ret in ("raise", "raise-base"):
+        # the callback dies: the Timer task is de-scheduled like any task that raises
+        self.tdue.pop(i, None)
+        raise (HBase if ret == "raise-base" else TimerError)("timer:%d" % i)
       if cont:
         self.tdue[i] = now + spec["t"]
       else:
@@ -948,6 +1022,8 @@ def _count_ops(prog):
       n += 2 + _count_ops(op.get("sub", {}).get("prog", []))
     if op.get("op") == "send":
       n += 2 * int(op.get("len", 1)) + 4
+    if op.get("op") == "rfop":
+      n += 2 + len(op.get("script") or [])
   return n
 
 
